@@ -151,13 +151,14 @@ def rule_reject(ctx):
             chars = rx.charset(run[0])
         extra = sorted(chars - removed - {'+', '-'})
         if extra:
-            rr.fail('%s::OperatorToken::sum_minus class admits %s' % (
-                TL.OPERATOR_REL, ','.join('%02x' % ord(c) for c in extra)),
+            rr.fail('%s::OperatorToken::sum_minus class admits non-sign '
+                    'characters' % TL.OPERATOR_REL,
                     'the sign-run group of OperatorToken._re_process matches %s '
                     'besides + and - (only %r is stripped first): such a '
                     'character between two operands is silently read as `+`' % (
                         ', '.join(repr(c) for c in extra), ''.join(sorted(removed))),
-                    file=TL.OPERATOR_REL, function='OperatorToken', line=ot.node.lineno)
+                    file=TL.OPERATOR_REL, function='OperatorToken',
+                    line=ot.node.lineno, items=['%02x' % ord(c) for c in extra])
         else:
             rr.ok('sign-run class minus stripped characters is {+,-}', r.where)
     return rr
